@@ -1884,6 +1884,17 @@ func (x *Exec) bindResults(sc *scope, fn *ssa.Function, res []Val) {
 			sc.vars["err"] = r
 		}
 	}
+	// results that were named when the ledger was recorded keep answering to those names
+	if rn := recordedResultNames(baseKey(fn)); len(rn) == len(res) {
+		for i, n := range rn {
+			if n == "" || n == "_" {
+				continue
+			}
+			if _, ok := sc.vars[n]; !ok {
+				sc.vars[n] = res[i]
+			}
+		}
+	}
 	if len(res) > 0 {
 		if _, ok := sc.vars["result"]; !ok {
 			sc.vars["result"] = res[0]
